@@ -1,6 +1,7 @@
 (* C13 - round trips of the cell codecs (Csv/Fields.v). *)
 From Coq Require Import Decimal DecimalZ DecimalPos.
-From PJ Require Import Base.Prelude Csv.CsvModel Csv.Fields gen.Consts.
+From PJ Require Export Csv.DateSweep.
+From PJ Require Import Base.Prelude Csv.CsvModel Csv.Fields Csv.DateSweepCsv Csv.DateSweepIso gen.Consts.
 Open Scope N_scope.
 
 (* ---------- text ---------- *)
@@ -135,53 +136,8 @@ Lemma pred_sep_ok :
   csv_pred_sep_write = [pred_sep] /\ csv_pred_sep_read = [pred_sep] /\ is_int_char pred_sep = false.
 Proof. repeat split. Qed.
 
-(* ---------- dates ---------- *)
+(* ---------- dates (sweeps: DateSweep*.v) ---------- *)
 Open Scope Z_scope.
-
-Definition csv_date_items : list fitem := parse_format csv_date_format.
-Definition iso_items : list fitem := parse_format iso_format.
-
-Definition sweep_len : nat := Z.to_nat (date_hi - date_lo).
-
-(* the days start, start+1, ..., start+n-1 (built by counting up in Z: linear time) *)
-Fixpoint zrange (n : nat) (start : Z) : list Z :=
-  match n with
-  | O => []
-  | S k => start :: zrange k (start + 1)
-  end.
-
-Lemma in_zrange : forall n start d, start <= d < start + Z.of_nat n -> In d (zrange n start).
-Proof.
-  induction n as [|k IH]; intros start d Hd; [lia|].
-  cbn [zrange]. destruct (Z.eq_dec start d) as [E|E]; [left; exact E|].
-  right. apply IH. lia.
-Qed.
-
-Definition sweep_days : list Z := zrange sweep_len date_lo.
-
-Definition date_roundtrip_b (items : list fitem) (d : Z) : bool :=
-  match parse_date items (format_date items d) with
-  | Some d' => d' =? d
-  | None => false
-  end.
-
-Lemma date_sweep (items : list fitem) :
-  forallb (date_roundtrip_b items) sweep_days = true ->
-  forall d, date_lo <= d < date_hi -> parse_date items (format_date items d) = Some d.
-Proof.
-  intros H d Hd. rewrite forallb_forall in H.
-  assert (Hin : In d sweep_days).
-  { apply in_zrange. unfold sweep_len, date_lo, date_hi in *. lia. }
-  specialize (H d Hin). unfold date_roundtrip_b in H.
-  destruct (parse_date items (format_date items d)) as [d'|]; [|discriminate].
-  apply Z.eqb_eq in H. congruence.
-Qed.
-
-Lemma csv_date_sweep : forallb (date_roundtrip_b csv_date_items) sweep_days = true.
-Proof. vm_cast_no_check (eq_refl true). Qed.
-
-Lemma iso_date_sweep : forallb (date_roundtrip_b iso_items) sweep_days = true.
-Proof. vm_cast_no_check (eq_refl true). Qed.
 
 (* every day of 1969-01-01 .. 2068-12-31, written with the format of csv_io.py (gen/Consts.v) *)
 Theorem parse_format_date : forall d, date_lo <= d < date_hi ->
@@ -196,17 +152,10 @@ Lemma date_bounds_are_the_years :
   civil_of_days date_lo = (1969, 1, 1) /\ civil_of_days (date_hi - 1) = (2068, 12, 31) /\ date_hi - date_lo = 36525.
 Proof. vm_compute. repeat split. Qed.
 
-(* the written date cells contain no character that would need quoting and are not empty *)
-Definition plain_cell_b (t : text) : bool :=
-  negb (match t with [] => true | _ => false end) && negb (existsb (fun c => special 59 c || special 44 c) t).
-
-Lemma date_cells_plain_sweep :
-  forallb (fun d => plain_cell_b (format_date csv_date_items d) && plain_cell_b (format_date iso_items d)) sweep_days = true.
-Proof. vm_cast_no_check (eq_refl true). Qed.
-
 Lemma date_cells_plain : forall d, date_lo <= d < date_hi ->
   plain_cell_b (format_date csv_date_items d) = true /\ plain_cell_b (format_date iso_items d) = true.
 Proof.
-  intros d Hd. pose proof date_cells_plain_sweep as H. rewrite forallb_forall in H.
-  apply andb_true_iff. apply H. apply in_zrange. unfold sweep_len, date_lo, date_hi in *. lia.
+  intros d Hd. split.
+  - exact (proj2 (date_sweep_both csv_date_items csv_date_sweep d Hd)).
+  - exact (proj2 (date_sweep_both iso_items iso_date_sweep d Hd)).
 Qed.
